@@ -1,6 +1,6 @@
 import GlueVerif.Lemmas.C17Refresh
 /-!
-Helper lemmas for C17, part 4: the messages of every call inside the hypothesis explain exactly the
+Helper lemmas for C17, part 4: the messages of every call explain exactly the
 change of the identifier list (`replay`).
 -/
 namespace GlueVerif.Lemmas.C17
